@@ -20,6 +20,7 @@ func init() {
 }
 
 func c13(c *Ctx) {
+	c.haltLockSetFollowsMode("holder")
 	{
 		// the primary commits no local transaction while the halt lock is granted: the three local publishers
 		// either run under SQLite's own write lock (CommitJournal, CommitWAL: gated by the FUSE lock protocol,
